@@ -44,13 +44,21 @@ AssignmentsOnce(c) ==
   IN \A p \in SeqSet(E) \cup SeqSet(X) : Count(E, p) = Count(X, p)
 Hygiene(c) == c.outside = <<>>
 
+Clauses(cs) ==
+  {x \in {"StatementsOnce", "ReturnsOnce", "NothingForeign", "TestsOnce", "AssignmentsOnce", "Hygiene"} :
+     ~ CASE x = "StatementsOnce" -> StatementsOnce(cs) [] x = "ReturnsOnce" -> ReturnsOnce(cs)
+         [] x = "NothingForeign" -> NothingForeign(cs) [] x = "TestsOnce" -> TestsOnce(cs)
+         [] x = "AssignmentsOnce" -> AssignmentsOnce(cs) [] x = "Hygiene" -> Hygiene(cs)}
+\* c.second: code generated a SECOND time from the same restructured graph - the statement holds for every regeneration
+Again(c) ==
+  IF "second" \notin DOMAIN c THEN {}
+  ELSE IF c.second.outcome = "internal" THEN {"Again/Compiles/" \o c.second.stage}
+  ELSE IF c.second.outcome # "ok" THEN {"Again/RefusedSecondTime"}
+  ELSE {"Again/" \o x : x \in Clauses(c.second.census)}
 Verdict(c) ==
   IF c.outcome = "internal" THEN {"Compiles/" \o c.stage}
   ELSE IF c.outcome = "refused" THEN {}
-  ELSE {x \in {"StatementsOnce", "ReturnsOnce", "NothingForeign", "TestsOnce", "AssignmentsOnce", "Hygiene"} :
-          ~ CASE x = "StatementsOnce" -> StatementsOnce(c.census) [] x = "ReturnsOnce" -> ReturnsOnce(c.census)
-              [] x = "NothingForeign" -> NothingForeign(c.census) [] x = "TestsOnce" -> TestsOnce(c.census)
-              [] x = "AssignmentsOnce" -> AssignmentsOnce(c.census) [] x = "Hygiene" -> Hygiene(c.census)}
+  ELSE Clauses(c.census) \cup Again(c)
 
 Init == /\ tid \in 1..Len(Cases)
         /\ bad = Verdict(Cases[tid])
